@@ -343,7 +343,7 @@ func (c20Prop) Gen(t *Tape, ph *PhaseCfg) Case {
 		}
 	}
 	c.Strategy = t.Draw(numStrats)
-	c.Fresh = t.Draw(100) == 0
+	c.Fresh = t.Draw(8) == 0
 	return c
 }
 
@@ -389,7 +389,7 @@ func (c20Prop) Exec(cc Case, st *Stats) *Violation {
 		}
 	}
 	if c.Fresh {
-		if v := c20FreshCheck(c, r1, stable, st); v != nil {
+		if v := c20FreshCheck(c, stable, st); v != nil {
 			return v
 		}
 	}
@@ -454,9 +454,11 @@ func c20EnvAfter(c *c20Case, st *Stats) *Violation {
 	return nil
 }
 
-// c20FreshCheck runs every application of the case alone in a fresh OS process (so that state
-// left by the very first run of this process cannot hide) and compares with the solo outcomes.
-func c20FreshCheck(c *c20Case, r1 []appOutcome, stable []map[string]bool, st *Stats) *Violation {
+// c20FreshCheck is the order-history component: every application of the case is run alone in its own
+// fresh OS process, and all of them are run one after another (in case order) in one more fresh OS
+// process; what an application does must not depend on which applications the process ran before.
+// Both sides are fresh processes whose whole history is this case, so a failure replays from the tape.
+func c20FreshCheck(c *c20Case, stable []map[string]bool, st *Stats) *Violation {
 	dir := filepath.Join(verifHome(), ".work")
 	os.MkdirAll(dir, 0o755)
 	f, err := os.CreateTemp(dir, "c20fresh-*.json")
@@ -467,25 +469,45 @@ func c20FreshCheck(c *c20Case, r1 []appOutcome, stable []map[string]bool, st *St
 	rf := &ReplayFile{Property: "C20", Phase: PhaseCfg{Name: "seeded"}, Tape: c.tape.Rec}
 	f.WriteString(mustJSON(rf))
 	f.Close()
-	co := runChild(60*time.Second, "solo", "--replay", f.Name(), "--c20-solo-outcomes")
-	if co.died || co.hung {
-		return nil // a harness-side problem of the cross-check must never become an alarm
+	child := func(only int) []appOutcome {
+		co := runChild(60*time.Second, "solo", "--replay", f.Name(), "--c20-solo-outcomes", "--only", fmt.Sprint(only))
+		if co.died || co.hung {
+			return nil // a harness-side problem of the cross-check must never become an alarm
+		}
+		var outs []appOutcome
+		if json.Unmarshal(bytes.TrimSpace(co.stdout), &outs) != nil {
+			return nil
+		}
+		return outs
 	}
-	var outs []appOutcome
-	if json.Unmarshal(bytes.TrimSpace(co.stdout), &outs) != nil || len(outs) != len(r1) {
+	seq := child(-1)
+	if len(seq) != len(c.Apps) {
 		return nil
 	}
-	st.Count("reach.fresh_process_cross_check")
-	for i := range r1 {
-		if d := diffOutcome(r1[i], outs[i], stable[i]); d != "" {
-			return &Violation{Clause: "history-independence", Detail: fmt.Sprintf("application %d run alone in a fresh OS process differs from the same application run in a process that ran others before: %s", i, d), Expected: outs[i], Observed: r1[i]}
+	st.Count("reach.fresh_process_order_history_check")
+	for i := range c.Apps {
+		alone := child(i)
+		if len(alone) != 1 {
+			return nil
+		}
+		cmp := comparableFields(alone[0], c.Apps[i].Stream)
+		only := map[string]bool{}
+		for k := range cmp {
+			if stable[i][k] {
+				only[k] = true
+			}
+		}
+		if d := diffOutcome(alone[0], seq[i], only); d != "" {
+			return &Violation{Clause: "history-independence", Detail: fmt.Sprintf("application %d (%s) run after applications 0..%d in one fresh OS process differs from the same application run alone in a fresh OS process: %s", i, c.Apps[i].Kind, i-1, d),
+				Expected: alone[0], Observed: seq[i]}
 		}
 	}
 	return nil
 }
 
-// c20SoloOutcomes is the child side of the fresh-process cross-check.
-func c20SoloOutcomes(t *Tape) {
+// c20SoloOutcomes is the child side of the order-history check: only >= 0 runs that application alone,
+// only < 0 runs all of them one after another.
+func c20SoloOutcomes(t *Tape, only int) {
 	c := c20Prop{}.Gen(t, nil).(*c20Case)
 	outs := []appOutcome{}
 	if c.Mode == "concurrent" {
@@ -494,8 +516,11 @@ func c20SoloOutcomes(t *Tape) {
 		for _, a := range c.Apps {
 			decls = append(decls, a.App)
 		}
-		for _, a := range c.Apps {
-			resetWorld(decls...)
+		resetWorld(decls...)
+		for i, a := range c.Apps {
+			if only >= 0 && i != only {
+				continue
+			}
 			outs = append(outs, runSolo(a, nil))
 		}
 	}
